@@ -134,6 +134,9 @@ func scenario(id int, role, cause, phase string, buf int) *Rec {
 		}
 	}
 	if phase == "traffic" || phase == "during-logout" {
+		// a ResendRequest that cannot be served (its range reaches beyond what was sent) takes the
+		// error paths of the store; whatever they do must not stand in the way of what follows
+		_ = l.Send(l.PeerMsg("2", "7=1\x0116=1000\x01"))
 		// inbound and outbound traffic in flight at the moment of the fault
 		wg.Add(2)
 		go func() {
